@@ -16,6 +16,7 @@ use zkryptium::schemes::generics::{BlindSignature, Commitment, PoKSignature, Sig
 use zkryptium::utils::message::bbsplus_message::BBSplusMessage;
 
 mod families;
+mod history;
 mod props;
 
 pub type Sha = Bls12381Sha256;
